@@ -1,6 +1,6 @@
 """C01 — TR-31 wrap then unwrap returns the original key and header."""
 from core import Case
-from props.tr31util import VERS, rb, rs, rand_blocks, make_header, header_tuple, wrap_case, unwrap_case, PRINTABLE, tr31, Session
+from props.tr31util import VERS, rb, rs, rand_blocks, make_header, header_tuple, wrap_case, unwrap_case, PRINTABLE, tr31, Session, pick_id
 from core import call_impl
 
 OBLIGATIONS = ["Psec.Props.C01.wrap_unwrap", "Psec.Props.C01.wrap_header_string", "Psec.Props.C01.wrap_readonly", "Psec.Tr31.blocks_load_dump", "Psec.Tr31.load_assemble", "Psec.Tr31.wrap_facts", "Psec.Tr31.extractKey_clear", "Psec.Props.C01.wrap_unwrap_ref"]
@@ -53,7 +53,7 @@ def reuse_sequence(c, rng, ver):
         if what == "rekey":
             se.setkbpk(rb(rng, rng.choice(ksizes)))
         elif what == "setblock":
-            se.setblock(rs(rng, 2).replace("P", "Q").replace("p", "q"), rs(rng, rng.randrange(0, 10)))
+            se.setblock(pick_id(rng, se), rs(rng, rng.randrange(0, 10)))
         elif what == "version":
             se.set(0, rng.choice([v for v in "ABCD" if len(se.kbpk) in VERS[v][1]]))
         elif what == "str":
